@@ -13,7 +13,7 @@ import vlib
 from vlib import Verdict
 
 PID = "C16"
-PROPS = [("theories/Pipelined/Props.v", "Pipelined.Props")]
+PROPS = [("theories/Pipelined/Props.v", "Pipelined.Props"), ("theories/Pipelined/PropsCompose.v", "Pipelined.PropsCompose")]
 AREAS = ["theories/Base", "theories/Pipelined"]
 ROOTS = ("ov_pipelined",)
 HUGE = 99999999
@@ -425,7 +425,7 @@ def main(tier, replay):
     if not gate["ok"]:
         v.violation({"kind": "proof", "theorem_or_file": gate["problems"], "what": "Coq obligations no longer check"}, has_input=False)
     if tier == "thorough" and gate["ok"]:
-        ok, out = vlib.coqchk(["Verif.Pipelined.Props"])
+        ok, out = vlib.coqchk(["Verif.Pipelined.Props", "Verif.Pipelined.PropsCompose"])
         stats["coqchk"] = "ok" if ok else out[-300:]
         if not ok:
             v.violation({"kind": "proof", "theorem_or_file": "coqchk Verif.Pipelined.Props", "what": out[-600:]}, has_input=False)
